@@ -613,7 +613,7 @@ theorem sortIndexFileOld_partial (d : List Seg) (H : Seg) (hs : Setup d H) (suf 
   have hH := hs.2
   exact Lemmas.C19.confined_core d hs.1 [H, "final".toList, IDX, SID, ['0'], ['0']] [] (v ++ suf)
     (Lemmas.C19.noSlash_append hg hsuf)
-    (by intro s hm; simp at hm; rcases hm with hm | hm | hm | hm | hm | hm <;> subst hm <;> first | exact hH.2.2.2 | decide)
+    (by intro s hm; simp at hm; rcases hm with hm | hm | hm | hm | hm <;> subst hm <;> first | exact hH.2.2.2 | decide)
     (by simp) 5
     (by rw [Lemmas.C19.walk_plain hH, Lemmas.C19.walk_plain (by decide), Lemmas.C19.walk_plain (by decide),
           Lemmas.C19.walk_plain (by decide), Lemmas.C19.walk_plain (by decide), Lemmas.C19.walk_plain (by decide)]; rfl)
